@@ -284,4 +284,63 @@ Section Bridge.
     rewrite E. replace (S i + (k - 1))%nat with (i + k)%nat by lia. reflexivity.
   Qed.
 
+  Lemma straight_ok_sound c :
+    forall l d cf, straight_ok d l = true -> (d <= List.length (c_sstack cf))%nat ->
+    exists cf', exec c (block l) cf = FRet KNil cf'.
+  Proof.
+    induction l as [|s l IH]; intros d cf H Hd; [discriminate|].
+    destruct s; cbn [straight_ok] in H; try discriminate;
+      cbn [block fold_right Scanner.exec]; fold (block l).
+    - apply (IH d); auto.
+    - apply (IH (S d)); auto. cbn. lia.
+    - apply (IH (S d)); auto. cbn. lia.
+    - destruct d as [|d]; [discriminate|].
+      destruct (c_sstack cf) as [|st ss] eqn:E; [cbn in Hd; lia|].
+      apply (IH d); auto. cbn in *. lia.
+    - apply (IH d); auto.
+    - apply (IH d); auto.
+    - destruct l; [|discriminate]. eauto.
+  Qed.
+
+  (* what the state after a keyword does with the next byte *)
+  Definition after_kw (c : byte) : option bool :=
+    match body_of prog poa with
+    | None => None
+    | Some body =>
+        match flat nl_cond ws_cond c body with
+        | Some [SRetErr _ _] => Some false
+        | Some l => if straight_ok 1 l then Some true else None
+        | None => None
+        end
+    end.
+
+  Lemma after_kw_true c cf f :
+    after_kw c = Some true -> c_sstack cf <> [] ->
+    exists cf', run_step (S f) poa c cf = ROk cf'.
+  Proof.
+    unfold after_kw. destruct (body_of prog poa) as [body|] eqn:Hb; [|discriminate].
+    destruct (flat nl_cond ws_cond c body) as [l|] eqn:Hf; [|discriminate].
+    intros H Hs.
+    assert (Hok : straight_ok 1 l = true).
+    { destruct l as [|[] [|? ?]]; try discriminate;
+        match type of H with (if ?b then _ else _) = _ => destruct b; [reflexivity|discriminate] end. }
+    destruct (straight_ok_sound c l 1 cf Hok) as [cf' E].
+    { destruct (c_sstack cf); [congruence|cbn; lia]. }
+    exists cf'. cbn [Scanner.run_step]. rewrite Hb, (flat_sound _ _ _ _ _ _ _ Hf), E. reflexivity.
+  Qed.
+
+  Lemma after_kw_false c cf f :
+    after_kw c = Some false ->
+    exists a b, run_step (S f) poa c cf = RErr (mk_unexpected data cf a b).
+  Proof.
+    unfold after_kw. destruct (body_of prog poa) as [body|] eqn:Hb; [|discriminate].
+    destruct (flat nl_cond ws_cond c body) as [l|] eqn:Hf; [|discriminate].
+    intros H.
+    assert (exists a b, l = [SRetErr a b]) as [a [b ->]].
+    { destruct l as [|[] [|? ?]]; try discriminate;
+        try (match type of H with (if ?b then _ else _) = _ => destruct b; discriminate end).
+      eauto. }
+    exists a, b. cbn [Scanner.run_step]. rewrite Hb, (flat_sound _ _ _ _ _ _ _ Hf). reflexivity.
+  Qed.
+
 End Bridge.
